@@ -619,7 +619,7 @@ impl<'a> Gen<'a> {
                 self.size_update(&mut out);
             }
         }
-        if self.is_bad() && self.rng.chance(1, 4) {
+        if self.bad > 0 && self.rng.chance(1, 8) {
             // a size update whose whole prefix is ONE kind of representation (each kind clears the decoder's
             // "may still resize" flag on its own line of code), then possibly more fields
             self.tag("update-after-uniform-prefix");
